@@ -364,7 +364,7 @@ options. -/
 theorem kscan_missing (K : KScan) (hK : K.Ok) (v : Nat) (key cb : Bytes) (opts : List Bytes) (cur : Int)
     (heven : opts.length % 2 = 0) (hint : Conv.int cb = .ok cur) (hc : 0 ≤ cur)
     (hok : allPairsOk false opts = true) :
-    kscanAnswer K v none key cb opts = .arr [.int 0, .arr []] :=
+    kscanAnswer K v none key cb opts = .arr [.bulk (intBytes 0), .arr []] :=
   kscanAnswer_missing K hK v key cb opts cur heven hint hc hok
 
 /-- **A key of another type** is refused with WRONGTYPE (once the cursor has passed the `Int` converter). -/
